@@ -48,6 +48,10 @@ type tmpfile struct {
 	uid        int
 	gid        int
 	newDirPerm fs.FileMode
+	// parentMustExist: the directory the file is linked into is not
+	// (re-)created: it stands for something that may have been taken away
+	// in the meantime (the upload a part belongs to)
+	parentMustExist bool
 }
 
 var (
@@ -184,9 +188,16 @@ func (tmp *tmpfile) link() error {
 
 	dir := filepath.Dir(objPath)
 
-	err = backend.MkdirAll(dir, tmp.uid, tmp.gid, tmp.needsChown, tmp.newDirPerm)
-	if err != nil {
-		return fmt.Errorf("make parent dir: %w", err)
+	if tmp.parentMustExist {
+		_, err = os.Stat(dir)
+		if err != nil {
+			return fmt.Errorf("parent dir: %w", err)
+		}
+	} else {
+		err = backend.MkdirAll(dir, tmp.uid, tmp.gid, tmp.needsChown, tmp.newDirPerm)
+		if err != nil {
+			return fmt.Errorf("make parent dir: %w", err)
+		}
 	}
 
 	if !tmp.isOTmp {
